@@ -526,7 +526,7 @@ func (w *World) Run(done func() bool) {
 			w.mu.Lock()
 		}
 		t := w.pickLocked(e)
-		if t.site == t.lastSite {
+		if t.site == t.lastSite && t.site != "sleep" {
 			t.spin++
 		} else {
 			t.spin = 0
